@@ -264,4 +264,18 @@ CHECKS = {
             {"name": "routing", "pkg": "proxy", "run": "^TestVF_C09_Routing$", "rapid": False},
         ],
     },
+    "C10": {
+        "level_text": "Fault enumeration over the real muxProvider/multiMuxManager/ManagedMuxSession with real yamux over net.Pipe in virtual time: the scripted connection provider lets the harness choose the outcome of every attempt (6 kinds) and the position of closes and of cancellation (also with an attempt in flight); slot-accounting invariants after every step, bounded healing, clean-shutdown (every handed-out connection closed by the pool, no goroutine left).",
+        "technique": "stateful property-based testing with rapid over fault sequences in virtual time (testing/synctest); resource-accounting invariants",
+        "level": "fault_enumeration",
+        "assumptions": [
+            "connProvider is a scripted in-package fake handing out net.Pipe ends; role-specific providers (TCP accept / dial with back-off) are covered only by the wiring worlds of C15",
+            "healing is asserted as: N live sessions within 120 virtual seconds once every attempt meets a healthy peer",
+            "yamux's global timer pool is emptied between bubbles (two GC cycles)",
+        ],
+        "parts": [
+            {"name": "rapid", "pkg": "transport/mux", "run": "^TestVF_C10_Rapid$",
+             "checks": {"quick": 2500, "thorough": 30000}, "shards": {"quick": 4, "thorough": 16}},
+        ],
+    },
 }
